@@ -101,6 +101,10 @@ def havoc(I, node, fr, lc):
                 if o.kind == "list" and nm and str(decl.get(nm, "")).startswith("list[") and all(isinstance(x, (VInt, VBool)) for x in o.data):
                     fr.locals[nm] = I.fresh_of_type(decl[nm], nm)
                     continue
+                if o.kind == "list" and nm and str(decl.get(nm, "")).startswith("opaque:"):
+                    # a local list used through an abstract container type (its operations have contracts)
+                    fr.locals[nm] = I.fresh_of_type(decl[nm], nm)
+                    continue
                 if (lc or {}).get("unroll") is None:
                     raise Unsupported("loop mutates a concrete %s; needs unrolling or a symbolic container" % o.kind)
     for g in (lc or {}).get("havoc_ghosts", []):
@@ -343,6 +347,9 @@ def exec_for(I, node, fr):
         return
     x = elem_at(idx)
     fr.locals[idxname] = VInt(simp(idx + 1))
+    # the element being processed, under a name that does not depend on how the loop names its variables:
+    # specifications say local('_item_of_<iterable expression>')
+    fr.locals["_item_of_" + ast.unparse(node.iter)] = x
     I.assign_target(node.target, x, fr)
     try:
         I.exec_block(node.body, fr)
@@ -431,5 +438,10 @@ def symbolic_iter(I, it, fr):
         if elem_tag == "str":
             fs = z3.Function("uf_selem_" + it.tag, smt.Int, smt.Int, smt.Seq)
             return (lambda i: VSeq([Seg("A", fs(ident, zint(i)), smt.slen(fs(ident, zint(i))))], "str")), n
+        if elem_tag == "int":
+            return (lambda i: VInt(felem(ident, zint(i)))), n
+        if elem_tag == "pair":
+            f2 = z3.Function("uf_elem2_" + it.tag, smt.Int, smt.Int, smt.Int)
+            return (lambda i: VTuple([VInt(felem(ident, zint(i))), VInt(f2(ident, zint(i)))])), n
         return (lambda i: VOpaque(elem_tag, felem(ident, zint(i)))), n
     raise Unsupported("symbolic iteration over %s" % I.type_name(it))
